@@ -92,6 +92,7 @@ def showEv : SEv → String
   | .err k key => s!"sc err {showKind k}{key}"
   | .spawned id d => s!"sc spawned s{id} def{d}"
   | .despawned id => s!"sc despawned s{id}"
+  | .capped k key => s!"sc capped {showKind k}{key}"
 
 /-- Runs a whole scenario, returning the trace lines. -/
 def runScenario (sc : SScenario) : List String :=
